@@ -15,6 +15,7 @@ import ClipVerif.Model.Out
 import ClipVerif.Model.Tree
 import ClipVerif.Model.AreaOP
 import ClipVerif.Model.Contain
+import ClipVerif.Model.AelOrder
 /-
 Correspondence side of the line protocol: `model <name> …` evaluates a hand model, `gen <fn> …`
 evaluates a generated function; both print the result in a canonical form that the harness
@@ -25,6 +26,8 @@ open Gen Proto
 
 def p64 (p : IPt) : Point64 := ⟨Int64.ofInt p.x, Int64.ofInt p.y⟩
 def toP64 (l : List IPt) : List Point64 := l.map p64
+def i64 (i : Int) : Int64 := Int64.ofInt i
+def pt (x y : Int) : Point64 := ⟨i64 x, i64 y⟩
 
 def showPath (l : List Point64) : String :=
   " ".intercalate ((toString l.length) :: l.map (fun p => s!"{p.X.toInt} {p.Y.toInt}"))
@@ -74,6 +77,29 @@ def model (name : String) (ts : Toks) : String :=
     match takePath rest with
     | some (p, []) => toString (Model.pointInPolygon (p64 ⟨px, py⟩) (toP64 p).toArray)
     | _ => "parse-error"
+  | "aelins", n :: rest =>
+    -- n resident edges then the newcomer, 13 integers each (the probe sends pairwise distinct edges)
+    let rec edges : Nat → List Int → List Model.AelEdge → Option (List Model.AelEdge)
+      | 0, [], acc => some acc.reverse
+      | 0, _, _ => none
+      | k+1, cx :: bx :: by_ :: tx :: ty :: mx :: nx :: ny :: px :: py :: il :: lm :: jr :: rest, acc =>
+        edges k rest ({ curX := i64 cx, bot := pt bx by_, top := pt tx ty, isMax := mx != 0, nextPt := pt nx ny,
+                        ppvPt := pt px py, isLeft := il != 0, lmY := i64 lm, joinRight := jr != 0 } :: acc)
+      | _, _, _ => none
+    match edges (n.toNat + 1) rest [] with
+    | some es =>
+      let ael := es.dropLast
+      match es.getLast? with
+      | some ae =>
+        let valid := String.join (ael.map fun e => b (Model.isValidAelOrder e ae))
+        match Model.insertLeftEdge ael ae with
+        | none => s!"fault | {valid}"
+        | some res =>
+          match (List.range (ael.length + 1)).find? (fun k => res == ael.take k ++ ae :: ael.drop k) with
+          | some k => s!"{k} | {valid}"
+          | none => s!"order-changed | {valid}"
+      | none => "parse-error"
+    | none => "parse-error"
   | "contain", rest =>
     match takePath rest with
     | some (p1, rest) => match takePath rest with
@@ -217,8 +243,6 @@ def model (name : String) (ts : Toks) : String :=
     | _ => "parse-error"
   | _, _ => "parse-error model"
 
-def i64 (i : Int) : Int64 := Int64.ofInt i
-def pt (x y : Int) : Point64 := ⟨i64 x, i64 y⟩
 def sgn (z : Int) : String := if z < 0 then "-1" else if z = 0 then "0" else "1"
 
 def gen (fn : String) (ts : Toks) : String :=
